@@ -79,6 +79,14 @@ func c02Context() map[string]stick.Value {
 	}
 }
 
+// detContext is c02Context without multi-entry maps (nothing may depend on Go's
+// map iteration order in the differential checks).
+func detContext() map[string]stick.Value {
+	c := c02Context()
+	c["m"] = map[string]stick.Value{"k": "v"}
+	return c
+}
+
 func c02Vars() []string {
 	var vs []string
 	for k := range c02Context() {
